@@ -58,3 +58,52 @@ contract(
         "implies(result is not None and ew_usage != ElementwiseUsage.No, result.ib_end == result.ab_start and result.ab_start == result.lut_start)",
     ],
 )
+
+
+# ===== try_block_config: the validation used by both the command-stream generator and the public query ==============
+from ethosu.vela.architecture_allocator import ArchitectureBlockConfig  # noqa: E402
+from ethosu.vela.ethos_u55_regs.ethos_u55_regs import resampling_mode  # noqa: E402
+from ethosu.vela.operation import Kernel, NpuBlockType, PointXY  # noqa: E402
+
+REGISTRY.declare_struct(ArchitectureBlockConfig)
+
+SHAPE = TStruct(Block, width=TInt(lo=1, hi=65535), height=TInt(lo=1, hi=65535), depth=TInt(lo=1, hi=65535))
+KERNEL = TStruct(Kernel, width=TInt(lo=1, hi=65536), height=TInt(lo=1, hi=256),
+                 stride=TTuple(TInt(lo=1, hi=3), TInt(lo=1, hi=3), cls=PointXY), dilation=TTuple(TInt(lo=1, hi=2), TInt(lo=1, hi=2), cls=PointXY))
+
+
+def ublock_ok(block_config, arch):
+    """positive multiple of the micro-block and within the maximum block, per axis"""
+    return (0 < block_config.height <= arch.ofm_block_max.height and block_config.height % arch.ofm_ublock.height == 0
+            and 0 < block_config.width <= arch.ofm_block_max.width and block_config.width % arch.ofm_ublock.width == 0
+            and 0 < block_config.depth <= arch.ofm_block_max.depth and block_config.depth % arch.ofm_ublock.depth == 0)
+
+
+contract(
+    "ethosu.vela.architecture_allocator:try_block_config", props=["C15"],
+    variants={
+        "%s,ifm_bits=%d" % (name, bits): dict(
+            block_config=TStruct(Block, width=TInt(lo=-4, hi=70000), height=TInt(lo=-4, hi=70000), depth=TInt(lo=-4, hi=70000)),
+            arch=TConst(arch), npu_op_type=TEnum(NpuBlockType), ofm_shape=SHAPE, ifm_shape=SHAPE, ifm2_shape=TOpt(SHAPE),
+            uses_scalar=PyBool, ifm_bits=TConst(bits), is_partkernel=PyBool, kernel=KERNEL, lut_banks=TInt(lo=0, hi=2),
+            scaled=PyBool, ifm_resampling=TEnum(resampling_mode))
+        for name, arch in ARCHS.items() for bits in (8, 16, 32)
+    },
+    ensures=[
+        "implies(result is not None, ublock_ok(block_config, arch))",
+        "implies(result is not None, result.ofm_block == block_config and result.is_partkernel == is_partkernel and result.bank_size == arch.shram_bank_size)",
+        # the layout is ordered, non-overlapping and inside the accelerator's bank count (facts carried over from _try_block_config)
+        "implies(result is not None, result.layout.ib_start == arch.shram.reserved_output_banks and result.layout.ib_start <= result.layout.ib_start2"
+        " and result.layout.ib_start2 <= result.layout.ib_end and result.layout.ib_end <= result.layout.ab_start"
+        " and result.layout.ab_start <= result.layout.lut_start and result.layout.lut_start <= arch.shram.total_banks)",
+        # a look-up table never shares banks with the other partitions
+        "implies(result is not None, result.layout.lut_start == arch.shram.total_banks - max(lut_banks, arch.shram.reserved_end_banks))",
+        # the accumulator partition double-buffers the (Conv1D-optimised) OFM block
+        "implies(result is not None and npu_op_type != NpuBlockType.ElementWise,"
+        " (result.layout.lut_start - result.layout.ab_start) * arch.shram.bank_size_bytes >= 2 * acc_bytes_spec("
+        "   aa.fit_block_for_ofm(arch, ofm_shape, kernel, block_config), 40 if (ifm_bits == 16 and npu_op_type != NpuBlockType.Pooling and scaled) else 32))",
+        # the IFM partition double-buffers the IFM block needed for one OFM block
+        "implies(result is not None, (result.layout.ib_start2 - result.layout.ib_start) * arch.shram.bank_size_bytes"
+        " >= 2 * ifm_bytes_spec(Block(result.ifm_block.width, result.ifm_block.height, result.ifm_block.depth), ifm_bits))",
+    ],
+)
